@@ -66,3 +66,31 @@ static inline std::vector<Str> path_token_paths(const std::vector<Str> &tokens, 
     rec();
     return out;
 }
+
+// The stretch family: every component in turn blown up to lengths around the powers of two, so that counters, offsets and
+// sizes kept in too narrow a type (unsigned char, short, a fixed scratch array) show.  size 0: up to 257, 1: up to 4097,
+// 2: up to 65537 repetitions.  Templates hold one "{unit}" slot.  Valid URI references unless `tail` is appended by the caller.
+static inline std::vector<int> stretch_lengths(int size) {
+    std::vector<int> v; int top = size == 0 ? 256 : size == 1 ? 4096 : 65536;
+    for (int p = 16; p <= top; p *= (p < 256 ? 2 : (p < 4096 ? 4 : 16))) { v.push_back(p - 1); v.push_back(p); v.push_back(p + 1); }
+    return v;
+}
+static const char *STRETCH_TEMPLATES[] = {
+    "{a}:x", "{s+}://h", "//{u}@h", "//{%41}@h", "//{:}@h:1", "//{h}/", "//{H.}x:80", "//{%2d}", "//h:{1}", "//h:{0}/p", "/{a}", "{a}/b", "{a/}", "{/}", "/x{/}", "{../}x", "{./}x", "/{a/../}",
+    "{c:d/}e", "./{:}", "?{q}", "?{=&}", "#{f}", "#{/?}", "{%2f}", "{%7e}", "/{%2E%2e/}", "//[v1.{a}]", "//[v{1}.a]", "//[vF.{:}]/", "s://u:p@H:8/{a/}b?{q=%41&}#{f}",
+    "//h/{a}/{b}", "s:{a}", "s:{a/}", "s:?{q}", "//1.2.3.4/{a}", "//[::1]:{1}", "//u@[A::b]/{a/}?{q}"
+};
+static inline Str stretch_make(const char *tpl, int n) {
+    Str out; for (const char *p = tpl; *p; p++) {
+        if (*p != '{') { out += *p; continue; }
+        const char *e = strchr(p, '}'); Str unit(p + 1, e); out.reserve(out.size() + unit.size() * (size_t)n + 64); for (int i = 0; i < n; i++) out += unit; p = e;
+    }
+    return out;
+}
+// visit(text) for every template x length (a template with several slots stretches all of them; lengths are capped so that no text exceeds ~400 k characters)
+template <class F> void stretch_family(int size, F visit) {
+    std::vector<int> L = stretch_lengths(size);
+    for (const char *t : STRETCH_TEMPLATES) { int slots = 0; for (const char *p = t; *p; p++) if (*p == '{') slots++;
+        for (int n : L) { if (slots > 1 && n > 4097) continue; visit(stretch_make(t, n)); } }
+}
+static inline std::vector<Str> stretch_list(int size) { std::vector<Str> v; stretch_family(size, [&](const Str &s) { v.push_back(s); }); return v; }
